@@ -31,7 +31,8 @@ type StoreCfg struct {
 	EvictNeeded bool     `json:"EvictNeeded"`
 	ForceEvict  bool     `json:"ForceEvict"` // a memory soft limit of one byte: breached in every cycle
 	ForceKind   string   `json:"ForceKind"`  // heap | sys
-	Logger      bool     `json:"Logger"`     // attach a logger that accepts every level (call-outs of the backend)
+	JobBelowDEA bool     `json:"JobBelowDEA"`
+	Logger      bool     `json:"Logger"` // attach a logger that accepts every level (call-outs of the backend)
 	Collide     bool     `json:"Collide"`
 	Hash        string   `json:"Hash"`   // HashInj | HashColl: the model's hash function
 	Jitter      float64  `json:"Jitter"` // -1 disabled, 0 library default
@@ -93,6 +94,12 @@ func (c StoreCfg) cacheConfig(name string, st cache.StatsTracker, needed *bool) 
 		ItemsCountReportInterval: 1000 * time.Hour,
 		ExpirationJitter:         c.Jitter,
 		CountSoftLimit:           uint64(c.CountLimit),
+	}
+
+	// A job interval BELOW DeleteExpiredAfter (the usual production set-up; the janitor goroutine still never fires
+	// during a run: at least one hour of real time): the boundary stays now - DeleteExpiredAfter.
+	if c.JobBelowDEA && c.DEA >= 2 {
+		cc.DeleteExpiredJobInterval = time.Duration(c.DEA-1) * u
 	}
 
 	if c.Unlimited {
